@@ -626,6 +626,7 @@ def spec_search(ctx, shim, model, r, nfonts):
         hexf, rec, chains = font_case(r, (kind,), nchains=1, max_sub=1, wf=True)
         for _ in range(6):
             n = r.range(1, 8)
+            if kind == 2 and r.chance(1, 3): n = r.range(60, 200)     # long enough for the component stack to pass 64
             gs = ",".join(f"{r.below(NG)}:{i}" for i in range(n))
             d = r.choice(["l", "l", "r", "t"])
             mo = "-" if kind != 5 else str(r.choice([20, 60, 200]))
@@ -667,7 +668,7 @@ def spec_search(ctx, shim, model, r, nfonts):
         else:
             dist[kn + ":agree"] = dist.get(kn + ":agree", 0) + 1
     ctx.note_search("morx-spec", total, nontriv, distribution=dist,
-                    rule="well-formed single-subtable fonts x glyph strings <= 8 x 3 directions; crate through the "
+                    rule="well-formed single-subtable fonts x glyph strings <= 8 (ligature: a third of the strings 60-200 glyphs) x 3 directions; crate through the "
                          "substitute hook vs Spec/Aat reference interpreter; non-trivial = inside the reference's domain "
                          "and no crash")
 
@@ -1083,6 +1084,16 @@ def env_cases(r, nfonts, per_font=3, nenv=3):
     for it in range(nfonts):
         with_feat = r.chance(1, 3)
         chains = deleting_chains(r, with_ins=(it % 4 == 0))
+        ls_info = None
+        if it % 6 == 5:
+            # a stack-machine ligature subtable (component stack deeper than the 64 remembered positions), alone or in front
+            # of a non-contextual subtable that deletes
+            st, ls_info = stack_subtable(r)
+            subs = [st]
+            if r.chance(1, 3):
+                subs.append({"kind": 4, "coverage": 0x20, "flags": 1, "lookup": identity_lookup(r, deleting_subst(r))})
+            chains = [{"default": 1, "features": [], "subtables": subs}]
+            with_feat = False
         morx, tok = build_morx(r, chains, NG)
         feat_rows = rand_feat_table(r) if with_feat else None
         feat = build_feat(feat_rows) if feat_rows is not None else None
@@ -1098,6 +1109,9 @@ def env_cases(r, nfonts, per_font=3, nenv=3):
             n = r.range(1, 8)
             pool = [r.range(1, NG - 1) for _ in range(r.range(1, 4))] if r.chance(1, 2) else list(range(1, NG))
             gl = [r.choice(pool) for _ in range(n)]
+            if ls_info is not None:
+                gl = stack_text(r, ls_info, maxlen=r.choice([70, 100, 140]))[0] or gl
+                n = len(gl)
             cl = env_clusters(r, n)
             d = r.choice(["l", "l", "r", "r", "t", "b"])
             level = r.choice([0, 0, 1, 2])
@@ -1268,12 +1282,231 @@ def env_search(ctx, shim, cases):
                     rule="generated well-formed morx tables in which deletion is frequent (non-contextual / contextual lookups "
                          "mapping to 0xFFFF, ligatures, plus rearrangement and - every 4th font - insertion), each text on the "
                          "bare morx font and on 3 environments drawn from GSUB (none / no features / ccmp single substitution) x "
-                         "GPOS (none / no features / kern pairs / mark-feature adjustment) x kerx x kern x GDEF; strings <= 8 over "
+                         "GPOS (none / no features / kern pairs / mark-feature adjustment) x kerx x kern x GDEF; every 6th font a stack-machine "
+                         "ligature subtable with texts of 70-140 glyphs (component stack deeper than 64); otherwise strings <= 8 over "
                          "the PUA alphabet, 4 directions, 3 levels, ascending / gapped / repeated clusters, 0-2 user features on "
                          "fonts with feat; oracles: no 0xFFFF in the output, glyph ids = substitute hook minus deleted glyphs "
                          "(horizontal text or no GSUB; else = input through the GSUB substitution), glyph ids independent of the "
                          "environment, on the bare font every advance is the hmtx advance of its glyph; non-trivial = the hook "
                          "result contains a deleted glyph")
+
+# ------------------------------------------------------------------------------------------------
+# ligature subtables with a DEEP component stack.  The stack of a ligature subtable is never emptied except by an
+# underflow: every ligature formed stays on it, and so does every component that is pushed and not consumed, so its depth
+# grows over a whole run of text.  rustybuzz (like HarfBuzz) remembers the newest 64 positions in a ring
+# (HB_MAX_CONTEXT_LENGTH) under an unbounded depth counter.  "Stack machines": component classes that push, trigger classes
+# that (push and) perform an action list popping j components, neutral glyphs; texts are words of k components + a trigger
+# with k and j drawn around the ring size and its multiples, so that actions run with the depth just below / at / above
+# 64, 128, ... and pop up to (and past) everything the ring remembers.
+
+RING = 64
+LS_POPS = [1, 2, 2, 3, 3, 4, 5, 8, 17, 33, 62, 63, 64, 64, 65, 70]
+
+
+def stack_subtable(r):
+    """a well-formed ligature subtable of the shape described above; returns (subtable, info for the text generator)"""
+    ncomp = r.range(1, 2)
+    ntrig = r.range(1, 3)
+    nneut = r.below(2)
+    ncls = 4 + ncomp + ntrig + nneut
+    comp_cls = list(range(4, 4 + ncomp))
+    trig_cls = list(range(4 + ncomp, 4 + ncomp + ntrig))
+    neut_cls = list(range(4 + ncomp + ntrig, ncls))
+    gl = r.shuffle(list(range(1, NG)))
+    classes, by_class = {}, {}
+    for i, c in enumerate(comp_cls + trig_cls + neut_cls):
+        classes[gl[i]] = c
+    for g in gl[ncomp + ntrig + nneut:]:
+        k = r.below(4)
+        if k <= 1: classes[g] = r.choice(comp_cls)           # most glyphs are components
+        elif k == 2 and neut_cls: classes[g] = r.choice(neut_cls)
+        # else: out of bounds (class 1)
+    for g, c in classes.items():
+        by_class.setdefault(c, []).append(g)
+    oob = [g for g in range(1, NG) if g not in classes]
+    acts = []
+    trig = {}
+    small = r.chance(1, 4)                                  # a font whose action lists are all short
+    for c in trig_cls:
+        j = r.choice(LS_POPS[:8]) if small else r.choice(LS_POPS)
+        start = len(acts)
+        for a in range(j):
+            v = r.below(8)
+            if a == j - 1: v |= 0x80000000 | (0x40000000 if r.chance(1, 2) else 0)
+            elif r.chance(1, 12 if j > 8 else 4): v |= 0x40000000      # a Store in the middle of the list
+            acts.append(v)
+        pushes = r.chance(3, 4)
+        ns = r.choice([0, 2, 2])
+        trig[c] = {"pops": j, "start": start, "pushes": pushes, "new_state": ns}
+    arrays = {"actions": acts, "components": [r.below(2) for _ in range(NG + 8)],
+              "ligatures": [r.range(1, NG - 1) for _ in range(max(LS_POPS) + 2)]}
+    entries = []
+
+    def ent(e):
+        if e not in entries: entries.append(e)
+        return entries.index(e)
+
+    rows = []
+    for st_ in range(3):
+        row = []
+        for c in range(ncls):
+            if c in comp_cls: row.append(ent((2, 0x8000, 0, 0)))
+            elif c in trig_cls:
+                t = trig[c]
+                row.append(ent((t["new_state"], 0x2000 | (0x8000 if t["pushes"] else 0), t["start"], 0)))
+            else: row.append(ent((st_ if st_ == 2 else 0, 0, 0, 0)))
+        rows.append(row)
+    mach = {"nclasses": ncls, "classes": classes, "states": rows, "entries": entries}
+    cov = 0x20 | (0x40 if r.chance(1, 4) else 0) | (0x10 if r.chance(1, 4) else 0)
+    st = {"kind": 2, "coverage": cov, "flags": 1, "mach": mach, "arrays": arrays}
+    st["built"] = build_stx(r, 2, mach, NG, arrays)
+    return st, {"comp": [g for c in comp_cls for g in by_class[c]], "trig": {by_class[c][0]: trig[c] for c in trig_cls},
+                "neutral": [g for c in neut_cls for g in by_class.get(c, [])] + oob}
+
+
+def stack_text(r, info, maxlen=260):
+    """words of k component glyphs + a trigger glyph.  The run lengths are drawn so that the stack depth at the triggers
+    lands around the ring size and its multiples; returns (glyphs, depth profile for the distribution)"""
+    trigs = sorted(info["trig"])
+    gl, depth, prof = [], 0, []
+    mode = r.below(6)
+    # 0: many short words (the depth creeps up by the ligatures that stay); 1: one long run to the ring size; 2: to twice
+    # the ring size; 3: long run then short words; 4: short text; 5: mixed
+    target = {0: None, 1: RING, 2: 2 * RING, 3: RING, 4: None, 5: None}[mode]
+    budget = r.range(2, 12) if mode == 4 else maxlen
+    first = True
+    while len(gl) < budget:
+        t = r.choice(trigs)
+        ti = info["trig"][t]
+        if first and target is not None:
+            k = max(0, target - r.range(0, 6) - (1 if ti["pushes"] else 0) + r.below(4))
+        elif mode == 5 and r.chance(1, 6):
+            k = r.choice([30, 61, 62, 63, 64, 65, 66, 70])
+        else:
+            k = r.choice([0, 1, 1, 1, 2, 2, 3, 4])
+        first = False
+        if len(gl) + k + 1 > maxlen: break
+        for _ in range(k):
+            if info["neutral"] and r.chance(1, 10): gl.append(r.choice(info["neutral"]))
+            gl.append(r.choice(info["comp"]))
+        gl.append(t)
+        depth += k + (1 if ti["pushes"] else 0)
+        prof.append((depth, ti["pops"]))
+        depth = 0 if ti["pops"] > depth else depth - ti["pops"] + 1        # a guide (exact without middle Stores)
+        if mode in (1, 2) and len(prof) >= r.range(2, 6): break
+    return gl[:maxlen], prof
+
+
+def longstack_cases(r, nfonts, per_font=4):
+    """[(hook request, spec request, shape request, meta)] on single-subtable stack-machine fonts"""
+    cases = []
+    for _ in range(nfonts):
+        st, info = stack_subtable(r)
+        chains = [{"default": 1, "features": [], "subtables": [st]}]
+        morx, tok = build_morx(r, chains, NG)
+        hexf = build_font(NG, morx).hex()
+        rec = " ".join(map(str, [NG, 0] + tok))
+        for _ in range(per_font):
+            gl, prof = stack_text(r, info)
+            if not gl: continue
+            d = r.choice(["l", "l", "r", "t"])
+            level = r.choice([0, 0, 1, 2])
+            gs = ",".join(f"{g}:{i}" for i, g in enumerate(gl))
+            text = ",".join(f"{0xE000 + g - 1:x}:{i}" for i, g in enumerate(gl))
+            tail = f"{hexf} R {rec} I {d} {level} - - - {gs}"
+            cases.append(("morx run " + tail, "morx spec " + tail, f"morx shape {hexf} R 0 I {d} {level} - {text}",
+                          {"glyphs": gl, "dir": d, "level": level, "profile": prof,
+                           "pops": sorted(t["pops"] for t in info["trig"].values())}))
+    return cases
+
+
+def depth_class(prof):
+    """where the deepest action of the text ran, relative to the ring"""
+    ks = set()
+    for depth, pops in prof:
+        m = depth % RING
+        if depth >= RING and (m < 4 or m > RING - 4): ks.add("action-at-depth-near-multiple-of-ring")
+        if depth > RING: ks.add("depth>ring")
+        if depth > 2 * RING: ks.add("depth>2*ring")
+        if pops >= RING - 2 and depth >= RING - 2: ks.add("pops-whole-ring")
+        if pops > RING and depth > RING: ks.add("pops-past-ring")
+        if depth >= RING and depth - pops < RING: ks.add("pops-across-ring-boundary")
+    return sorted(ks) or ["shallow"]
+
+
+def classify_longstack(ln, out):
+    ks = [k for k in classify_run(ln, out) if not k.startswith("len-in:")]
+    n = len(ln.split()[-1].split(","))
+    ks.append("len-in:>=128" if n >= 128 else ("len-in:64-127" if n >= 64 else "len-in:<64"))
+    return ks
+
+
+def longstack_search(ctx, shim, model, cases):
+    """Oracle = the reference interpreter of Spec/Aat (component stack of unbounded depth, the newest 64 remembered; an
+    action that pops an older component is outside its domain).  Compared with it: (1) hb_aat_layout_substitute through the
+    hook, all glyph ids incl. the deleted ones; (2) the public shape(): the glyph ids that come out are the reference's
+    without the deleted glyphs (reversed for right-to-left text)."""
+    a = vlib.run_lines(shim, [c[0] for c in cases], timeout=300)
+    b = vlib.run_lines(model, [c[1] for c in cases], timeout=300)
+    s = vlib.run_lines(shim, [c[2] for c in cases], timeout=300)
+    total = nontriv = 0
+    dist, found = {}, {}
+    for (hk, sp, sh, m), x, y, z in zip(cases, a, b, s):
+        total += 1
+        for k in depth_class(m["profile"]): dist[k] = dist.get(k, 0) + 1
+        if y == "undef":
+            dist["outside-domain"] = dist.get("outside-domain", 0) + 1
+            continue
+        n = len(m["glyphs"])
+        if not x.startswith("ok") or not z.startswith("ok"):
+            bad = x if not x.startswith("ok") else z
+            found.setdefault("crash", []).append((n, hk, sp, sh, m, x, y, z, None, None))
+            continue
+        exp = gids_of(y.split()[1])
+        got = gids_of(x.split()[3])
+        want_shape = [g for g in exp if g != DELETED]
+        if m["dir"] == "r": want_shape = want_shape[::-1]
+        got_shape = [g for g, _ in pairs_of(z.split()[1])]
+        if exp != m["glyphs"]:
+            nontriv += 1
+            if any(d >= RING for d, _ in m["profile"]): dist["ligatures-formed-at-depth>=ring"] = dist.get("ligatures-formed-at-depth>=ring", 0) + 1
+        if got != exp:
+            found.setdefault("hook-differs", []).append((n, hk, sp, sh, m, x, y, z, exp, got))
+        if got_shape != want_shape:
+            found.setdefault("shape-differs", []).append((n, hk, sp, sh, m, x, y, z, want_shape, got_shape))
+    for key, lst in sorted(found.items()):
+        lst.sort(key=lambda t: t[0])
+        n, hk, sp, sh, m, x, y, z, want, got = lst[0]
+        if key == "crash":
+            what = (f"ligature subtable with a deep component stack: {len(m['glyphs'])} glyphs, dir {m['dir']}: the crate gives "
+                    f"{(x if not x.startswith('ok') else z)[:120]} where the AAT reference interpreter is defined")
+        elif key == "hook-differs":
+            i = next((i for i, (p, q) in enumerate(zip(want, got)) if p != q), min(len(want), len(got)))
+            what = (f"ligature subtable with a deep component stack (action lists popping {m['pops']}; stack depth / pops at the "
+                    f"actions {m['profile'][:8]}): hb_aat_layout_substitute on {len(m['glyphs'])} glyphs, dir {m['dir']}, differs from the "
+                    f"AAT reference interpreter at glyph {i}: crate {got[max(0, i - 2):i + 3]}, reference {want[max(0, i - 2):i + 3]}")
+        else:
+            i = next((i for i, (p, q) in enumerate(zip(want, got)) if p != q), min(len(want), len(got)))
+            what = (f"shape() on a morx font whose ligature subtable runs with a deep component stack (action lists popping "
+                    f"{m['pops']}; stack depth / pops at the actions {m['profile'][:8]}): {len(m['glyphs'])} characters, dir {m['dir']}: "
+                    f"{len(got)} glyphs come out, the AAT reference interpreter gives {len(want)}; first difference at output glyph "
+                    f"{i}: crate {got[max(0, i - 2):i + 3]}, reference {want[max(0, i - 2):i + 3]}")
+        ctx.violation(what + f" ({len(lst)} requests)",
+                      {"stage": "search", "stream": "morx-longstack", "class": key, "request": sh if key != "hook-differs" else hk,
+                       "shape_request": sh, "hook_request": hk, "spec_request": sp, "glyphs": m["glyphs"], "dir": m["dir"],
+                       "level": m["level"], "depth_and_pops_at_actions": m["profile"], "expected": want, "observed": got,
+                       "crate_hook": x[:200], "crate_shape": z[:200], "count": len(lst)})
+    ctx.note_search("morx-longstack", total, nontriv, distribution=dist,
+                    violations_by_class={k: len(v) for k, v in found.items()},
+                    rule="stack-machine ligature fonts (1-2 component classes that push, 1-3 trigger classes that (push and) perform "
+                         "an action list popping 1-5 / 8 / 17 / 33 / 62-65 / 70 components with Store on the last and sometimes in the "
+                         "middle, neutral and out-of-bounds glyphs, ascending / descending / logical coverage) x texts of up to 260 "
+                         "glyphs made of words `k components + trigger`, k drawn so that the stack depth at the actions lands around 64, "
+                         "128 and in between (the depth grows by every ligature formed), LTR / RTL / TTB, 3 levels; oracles: substitute "
+                         "hook == Spec/Aat reference interpreter (all glyph ids), shape() == reference minus deleted glyphs; "
+                         "non-trivial = the reference changes the string; cases where an action pops a component older than the "
+                         "newest 64 are outside the reference's domain (crate == model only)")
+
 
 # ------------------------------------------------------------------------------------------------
 # state-table subtables under RANGED user features: a subtable that is switched off for a stretch of the text is
@@ -1730,6 +1963,9 @@ def run(ctx):
                    canon=canon, timeout=300)
     ctx.correspond("morx-run-feat", lines=run_lines(ctx.rng("runfeat"), ctx.budget(1200, 60000), kinds=(0, 1, 2, 4),
                    with_feat=True), classify=classify_run, canon=canon, timeout=300)
+    # 2b. ligature subtables whose component stack grows past the 64 positions the ring remembers
+    lsc = longstack_cases(ctx.rng("longstack"), ctx.budget(60, 2500))
+    ctx.correspond("morx-run-longstack", lines=[c[0] for c in lsc], classify=classify_longstack, canon=canon, timeout=300)
     # 3. chain-flag compilation (add_feature + compile + compile_flags)
     ctx.correspond("morx-compile", lines=compile_lines(ctx.rng("compile"), ctx.budget(1500, 80000)),
                    classify=classify_compile, canon=canon)
@@ -1752,6 +1988,7 @@ def run(ctx):
     seed_search(ctx, shim, model)
     verb_search(ctx, shim, model, ctx.budget(8, 10))
     spec_search(ctx, shim, model, ctx.rng("spec"), ctx.budget(350, 20000))
+    longstack_search(ctx, shim, model, lsc)
     corpus_search(ctx, shim, ctx.rng("corpus"), ctx.budget(400, 15000))
     shape_vs_hook(ctx, shim, ctx.rng("shapehook"), ctx.budget(150, 6000))
     fontbuild_cross(ctx, shim, ctx.rng("fontbuild"), ctx.budget(150, 3000))
@@ -1809,6 +2046,19 @@ def replay(ctx, rp):
         want = offrange_expected(rp, po)
         print("expected:", want)
         return 0 if offrange_agree(rp, pairs_of(a.split()[1]), want, po)[0] else 1
+    if st == "morx-longstack":
+        model = vlib.build_model()
+        x = vlib.run_lines(shim, [rp["hook_request"]], nproc=1)[0]
+        z = vlib.run_lines(shim, [rp["shape_request"]], nproc=1)[0]
+        y = vlib.run_lines(model, [rp["spec_request"]], nproc=1)[0]
+        print("glyphs", rp.get("glyphs"), "dir", rp.get("dir"), "stack depth / pops at the actions", rp.get("depth_and_pops_at_actions"))
+        print("substitute hook:", x[:300]); print("shape():        ", z[:300]); print("AAT reference:  ", y[:300])
+        if not (x.startswith("ok") and z.startswith("ok")): return 1
+        if y == "undef": return 0
+        exp = gids_of(y.split()[1])
+        want = [g for g in exp if g != DELETED]
+        if rp.get("dir") == "r": want = want[::-1]
+        return 0 if gids_of(x.split()[3]) == exp and [g for g, _ in pairs_of(z.split()[1])] == want else 1
     if st in ("morx-d17", "morx-shape-vs-hook"):
         a = vlib.run_lines(shim, [rp["request"]], nproc=1)[0]
         print("shape():", a[:300], "expected", rp.get("expected"))
